@@ -115,6 +115,11 @@ C12_2D(tk) ==
   [ zscores |-> SSqrt2(zm),
     pvals   |-> TailNormal2(zm) ]
 
+C12H_2D(tk) ==
+  LET zm == ZSignM(tk, RE(tk), CE(tk)) IN
+  [ zscores |-> [k |-> "zsign", nd |-> 2, v |-> zm],
+    pvals   |-> [k |-> "zsign_p", nd |-> 2, v |-> zm] ]
+
 C14_2D(tk) ==
   [ rows_scale_mean           |-> ScaleOut(tk, DimR, RE(tk), ScaleMean, FALSE),
     rows_scale_median         |-> ScaleOut(tk, DimR, RE(tk), ScaleMedian, FALSE),
@@ -332,6 +337,7 @@ Part(tk) ==
     [] Family = "c11" /\ ND = 1 -> C11_1D(tk)
     [] Family = "c11" /\ ND > 1 -> C11_2D(tk)
     [] Family = "c12" /\ ND > 1 -> C12_2D(tk)
+    [] Family = "c12h" /\ ND > 1 -> C12H_2D(tk)
     [] Family = "c14" /\ ND = 1 -> C14_1D(tk)
     [] Family = "c14" /\ ND > 1 -> C14_2D(tk)
     [] Family = "c14h" /\ ND = 1 -> C14H_1D(tk)
